@@ -631,7 +631,9 @@ Definition seg_used_b (live : list page) (s : segment) : bool :=
 Definition page_wf_b (segs : list segment) (p : page) : bool :=
   match find_seg (pg_seg p) segs with
   | None => false
-  | Some s => (sg_info s <=? pg_lo p) && (0 <? pg_n p) && (pg_lo p + pg_n p <=? sg_nslices s)
+  | Some s => (sg_info s <=? pg_lo p) && (0 <? pg_n p) && (pg_lo p + pg_n p <=? sg_nslices s) &&
+              (* the page of a huge segment is everything after the header *)
+              (negb (is_huge s) || ((pg_lo p =? sg_info s) && (pg_n p =? sg_nslices s - sg_info s)))
   end.
 Fixpoint pairwise {A : Type} (r : A -> A -> bool) (l : list A) : bool :=
   match l with [] => true | x :: t => forallb (r x) t && pairwise r t end.
